@@ -353,8 +353,55 @@ func genMeta(g *vh.Gen) {
 	}
 }
 
+// genSize: message sources of 0 bytes to 12 MB (thorough: up to 64 MiB) put into the store, then fetched through
+// REST /source, the web UI's /source and the client's GetMessageSource / MessageHeader.GetSource: every byte comes
+// back (the driver compares the bytes, the token stays the tag).
+func genSize(g *vh.Gen) {
+	hist := func(idx []int) string {
+		mb := vh.HS("alpha")
+		var ops []string
+		for j, i := range idx {
+			tag := 1000 + i
+			ops = append(ops, fmt.Sprintf("a:%s:%d:%d:%d", mb, 1700000000000+int64(j), tag, sizedSizes[i]))
+		}
+		for j := range idx {
+			id := vh.HS(fmt.Sprintf("k%d", j))
+			ops = append(ops, fmt.Sprintf("r:GET:2:%s:%s:tl0:%s:%s", mb, id, vh.HS("0"), vh.HS("a.bin")))
+			ops = append(ops, fmt.Sprintf("c:src:%s:%s", mb, id))
+			ops = append(ops, fmt.Sprintf("r:GET:5:%s:%s:tl0:%s:%s", mb, id, vh.HS("0"), vh.HS("a.bin")))
+			ops = append(ops, fmt.Sprintf("c:hsrc:%s:%d", mb, j))
+		}
+		return strings.Join(ops, ",")
+	}
+	emit := func(idx []int) {
+		for _, st := range []string{"mem", "file"} {
+			g.Emit("hist", st, "local", vh.HS(""), hist(idx))
+		}
+	}
+	// indices into sizedSizes: 0:0 1:1 2:4095 3:4096 4:4097 5:65535 6:65536 7:65537 8:1MiB 9:10240000 10:10256383
+	// 11:10256384 12:10256385 13:12000000 14:64MiB 15:257 16:1000000 17:16777215 18:16777217 19:33554433
+	emit([]int{0, 1, 4, 6, 13})
+	emit([]int{15, 8, 12})
+	if g.Tier == "thorough" {
+		emit([]int{2, 3, 5, 7, 16})
+		emit([]int{9, 10, 11})
+		emit([]int{17, 18})
+		emit([]int{19, 0})
+		emit([]int{14})
+		for i := 0; i < 20; i++ {
+			n := 1 + g.Intn(3)
+			idx := make([]int, n)
+			for j := range idx {
+				idx[j] = g.Intn(14)
+			}
+			emit(idx)
+		}
+	}
+}
+
 func gen(g *vh.Gen) {
 	genAttach(g)
+	genSize(g)
 	genMeta(g)
 	genAsm(g)
 	genGone(g)
